@@ -371,4 +371,27 @@ PROPS = {
         'trusted': ["H-AEAD", "H-RND"],
         'assumptions': ["H-AEAD", "H-RND"],
     },
+    'C04': {
+        'proofs': ['Ww.Proofs.C04Lemmas', 'Ww.Proofs.C04'],
+        'gen_sections': [],
+        'drivers': [{'name': 'c04'}],
+        'reasons': ['C04.'],
+        'class_fields': {'url04': ['ok', 'rok'], 'valid04': ['rel', 'abs', 'regex'], 'canon04': ['mode'], 'redir04': [], 'esc04': ['pathunescok', 'queryunescok'], 'whatwg04': ['expect'],
+                         'loc04': ['mode', 'emitter', 'status', 'hasembedded'], 'logscan': ['kind']},
+        'nontrivial': {'url04': lambda f: f.get('ok') == '1', 'valid04': lambda f: f.get('rel') == '1' or f.get('abs') == '1', 'logscan': lambda f: False, 'esc04': lambda f: False, 'whatwg04': lambda f: False},
+        'rule': "c04 driver. Function level: every string literal of the repository's own pkg/url tests + a curated attack list + minimised past failures, then grammar-generated URL-ish strings (schemes incl. javascript:/data:/scheme-only, "
+                "authority forms with look-alike hosts, userinfo, ports, IPv6/zone, IDNA look-alikes, / \\ . %2f %5c %2e %09 raw TAB/LF/NUL/space, dot segments, doubled separators, odd ? # @ :) and byte-level mutations of both; on each: "
+                "url.Parse (every field), String, EscapedPath, Hostname, ParseRequestURI, Path/QueryEscape/Unescape, both validators, the regular expression compiled from the current source, Canonical + Clean of the three modes over 6 configurations "
+                "(ingress with and without path prefix, several ingresses, two spellings of the SSO domain), http.Redirect for 6 request paths. HTTP level: the same strings as redirect parameter, Referer and request target through every emitter "
+                "(login, login callback, logout, logout callback, three automatic-retry paths, unknown-host retry, auto-login 302/401 and the login that follows it, SSO-server wildcard, SSO-proxy login/logout/callbacks) on 5 sites; each Location "
+                "(and the redirect parameter an SSO proxy hands on) is judged by the browser model. distinct = (line kind, outcome fields); non-trivial = a string Go's parser accepts / a validator accepts / any emitted Location.",
+        'level_text': "Proof (standalone chain) + PARTIAL (absolute modes). Proved for EVERY redirect-parameter string, request path and base scheme: the value StandaloneRedirect.Canonical returns, re-validated after the cookie round trip and "
+                      "rewritten by http.Redirect, is a Location the browser model resolves inside the request's origin (relValid_shape, cleared_no_backslash, httpRedirect_safe, browse_safeLoc, standalone_redirect_stays). "
+                      "The proof shows why the validator alone is not enough (it accepts a raw /\\evil.com) and that safety rests on validating only URL.String() output. SSO-server / SSO-proxy: model + differential + Spec on every Location.",
+        'level_note': "Trusted: Lean kernel; the model of net/url, path.Clean and http.Redirect (tied field by field on every run); the browser model (digest of the WHATWG URL parser; no browser in the sandbox; checked against a hand-kept table "
+                      "of 147 expectations; UTS-46 host mapping not modelled); AEAD authenticity of the login/logout cookie (C09).",
+        'technique': 'Lean 4 proof over a functional model of net/url + validators + http.Redirect + a WHATWG browser model, tied by differential runs at function level and judged on every real Location at HTTP level',
+        'trusted': ["net/url, path.Clean, http.Redirect modelled (not verified); WHATWG browser model is the oracle (no browser available)", "H-AEAD for the cookie-carried redirect", "H-IDNA: UTS-46 mapping of non-ASCII hosts not modelled"],
+        'assumptions': ["H-BROWSER", "H-AEAD", "H-IDNA"],
+    },
 }
